@@ -12,3 +12,4 @@ def run(ck):
     gradient.r7_projective_split(ck, P)
     gradient.r8_position_advances(ck, P)
     gradient.r9_radial_roots(ck, P)
+    gradient.r10_widen_before_arithmetic(ck, P)
